@@ -390,7 +390,7 @@ fn generate(seed: u64, case: u64, n_events: u64) -> Scenario {
 }
 
 fn run(r: &mut Report, sc: &Scenario, seed: u64) {
-    r.eval();
+    r.observe("routing-scenarios-run", 1);
     let case_json = |extra: Json| {
         let mut j = sc.json();
         j["seed"] = json!(seed);
@@ -479,6 +479,8 @@ fn run(r: &mut Report, sc: &Scenario, seed: u64) {
     for ev in &sc.events {
         let got = seen.remove(&ev.vid).unwrap_or_default();
         let w = want(ev, sc.subset);
+        // one evaluation = one event whose destination is judged against the routing table
+        r.eval();
         r.nontrivial(&(sc.subset, sc.transport, ev.kind, ev.extent, ev.val, ev.agg.is_some()));
         // signature class: the kind family, the extent and whether the value is numeric (the exact
         // spelling of the kind and the exact value are in the case)
@@ -814,8 +816,9 @@ fn main() {
     let mut r = Report::new(
         "C14",
         &args,
-        "one evaluation = one scenario (signal subset x transport x gzip, a few hundred classed events, flush, every collector record \
-         attributed to its vid); non-trivial = distinct (signal subset, transport, kind class, extent class, metric value class, aggregation present) \
+        "one evaluation = one emitted event whose destination (the collector endpoint that received its vid, or none + discard count) is judged \
+         against the routing table, inside scenarios of signal subset x transport x gzip with a few hundred classed events each (split-batch scenarios \
+         count one evaluation each); non-trivial = distinct (signal subset, transport, kind class, extent class, metric value class, aggregation present) \
          combinations whose event was accounted for at the collector",
     );
     let seed = args.seed;
